@@ -299,12 +299,18 @@ type caseSpec struct {
 	DR    bool       `json:"dr"`  // DestinationRule with the subsets present
 	Bind  int        `json:"bind"`
 	Rules []ruleSpec `json:"rules"`
+	// Split > 0: the first Split rules are in vs-main, the rest in a younger VirtualService
+	// "vs-split" with the same host (host defined by two VirtualServices; checked on the gateway only)
+	Split int `json:"split,omitempty"`
 }
 
 func (c caseSpec) String() string {
 	var rs []string
 	for _, r := range c.Rules {
 		rs = append(rs, r.String())
+	}
+	if c.Split > 0 {
+		rs[c.Split-1] += " ||"
 	}
 	return fmt.Sprintf("%s svc=%v dr=%v bind=%s [%s]", shapeNames[c.Shape], c.Svc, c.DR, bindNames[c.Bind], strings.Join(rs, " ; "))
 }
@@ -322,6 +328,13 @@ var otherAction = actionSpec{Name: "route-d3", Route: []destSpec{{Host: hostD3}}
 func (c caseSpec) virtualServices() []vsSpec {
 	main := vsSpec{Name: "vs-main", Gateways: bindGateways(c.Bind), Rules: c.Rules, Created: tBase.Add(2 * time.Hour)}
 	other := vsSpec{Name: "vs-other", Gateways: []string{"mesh", "gw"}, Rules: []ruleSpec{otherRule}}
+	if c.Split > 0 {
+		main.Hosts = []string{hostA}
+		second := main
+		second.Name, second.Created = "vs-split", tBase.Add(4*time.Hour)
+		main.Rules, second.Rules = c.Rules[:c.Split], c.Rules[c.Split:]
+		return []vsSpec{main, second}
+	}
 	switch c.Shape {
 	case shapeA:
 		main.Hosts = []string{hostA}
